@@ -356,7 +356,11 @@ def evaluate(case):
                     n_read = len(f)
                     for ev in f:
                         ev.get_particle_info()
-                        ev.get_rays_info()
+                        try:
+                            ev.get_rays_info()
+                        except ValueError as e_:
+                            if "not saved" not in str(e_):      # no event of the file had any ray (all below the weight cut)
+                                raise
                 if n_read != 2 and not fails:
                     fail("hdf5-count", "%d events in the file after 2 kernel events" % n_read)
             except Exception as e:
